@@ -4,7 +4,6 @@ import (
 	"time"
 
 	"github.com/mit-pdos/go-journal/common"
-	"github.com/mit-pdos/go-journal/jrnl"
 	"github.com/mit-pdos/go-journal/util"
 	"github.com/mit-pdos/go-nfsd/dir"
 	"github.com/mit-pdos/go-nfsd/fh"
@@ -294,7 +293,7 @@ func (nfs *Nfs) NFSPROC3_WRITE(args nfstypes.WRITE3args) nfstypes.WRITE3res {
 		errRet(op, &reply.Status, nfstypes.NFS3ERR_INVAL)
 		return reply
 	}
-	if uint64(args.Count) >= jrnl.LogBytes {
+	if uint64(args.Count) > nfs.maxWrite() {
 		errRet(op, &reply.Status, nfstypes.NFS3ERR_INVAL)
 		return reply
 	}
@@ -828,7 +827,7 @@ func (nfs *Nfs) NFSPROC3_FSINFO(args nfstypes.FSINFO3args) nfstypes.FSINFO3res {
 	reply.Resok.Rtmax = 16 * 4096
 	reply.Resok.Rtmult = 4096
 	reply.Resok.Rtpref = reply.Resok.Rtmax
-	reply.Resok.Wtmax = nfstypes.Uint32(jrnl.LogBytes)
+	reply.Resok.Wtmax = nfstypes.Uint32(nfs.maxWrite())
 	reply.Resok.Wtpref = 16 * 4096
 	reply.Resok.Wtmult = 4096
 	reply.Resok.Dtpref = 16 * 4096
